@@ -264,20 +264,30 @@ func structEdits(b *Built, f *refxz.File, r *sim.Rng) []structEdit {
 				add("nonzero-index-padding", tag, img)
 			}
 		}
-		// backward size
+		// backward size (relative to the true value of the re-assembled stream)
 		for _, d := range []int{1, -1} {
-			bw := st.IndexSize/4 - 1 + d
-			if bw < 0 {
+			d := d
+			if st.IndexSize/4-1+d < 0 {
 				continue
 			}
-			add("backward-size", fmt.Sprintf("%s %+d", tag, d*4), rebuildStream(s, f, si, rebuildHook{footer: func(f0, f1 *byte, b *uint32) { *b = uint32(bw) }}))
+			add("backward-size", fmt.Sprintf("%s %+d", tag, d*4), rebuildStream(s, f, si, rebuildHook{footer: func(f0, f1 *byte, b *uint32) {
+				if int(*b)+d >= 0 {
+					*b = uint32(int(*b) + d)
+				} else {
+					*b = *b + 1
+				}
+			}}))
 		}
 		// backward size with high bits set / extreme values (arithmetic in too narrow a type)
-		for _, bw := range []uint32{uint32(st.IndexSize/4-1) | 1<<30, uint32(st.IndexSize/4-1) | 1<<31, uint32(st.IndexSize/4-1) + 3<<30, 0xFFFFFFFF, uint32(st.IndexSize/4-1) ^ 1<<uint(r.Range(2, 29))} {
-			if int(bw) == st.IndexSize/4-1 {
-				continue
-			}
-			add("backward-size", fmt.Sprintf("%s stored value %#x (index is %d bytes)", tag, bw, st.IndexSize), rebuildStream(s, f, si, rebuildHook{footer: func(f0, f1 *byte, b *uint32) { *b = bw }}))
+		for _, ed := range []func(uint32) uint32{
+			func(v uint32) uint32 { return v | 1<<30 },
+			func(v uint32) uint32 { return v | 1<<31 },
+			func(v uint32) uint32 { return v + 3<<30 },
+			func(v uint32) uint32 { return 0xFFFFFFFF },
+			func(v uint32) uint32 { return v ^ 1<<uint(8+len(s)%20) },
+		} {
+			ed := ed
+			add("backward-size", tag+" high bits / extreme value", rebuildStream(s, f, si, rebuildHook{footer: func(f0, f1 *byte, b *uint32) { *b = ed(*b) }}))
 		}
 		// footer flags differ from header flags, both valid
 		for _, id := range []byte{0, 1, 4, 10} {
